@@ -436,10 +436,13 @@ def sec_properties(ctx, nd):
             for props in base_sets:
                 want_u, want_p = "unitary" in props, "positive" in props
                 valid = all(p in ("unitary", "positive") for p in props)
-                for mode in ("create_vector", "VectorsWithProperties"):
+                for mode in ("create_vector", "VectorsWithProperties", "VectorsWithProperties-set"):
                     seed = ctx.rng.randrange(2 ** 31)
                     requests = 1 if mode == "create_vector" else 3
-                    arg = {"create_vector": set(props), "VectorsWithProperties": list(props)}[mode]
+                    # the generator hands the SAME properties object to every request: a list and a real set
+                    arg = {"create_vector": set(props), "VectorsWithProperties": list(props),
+                           "VectorsWithProperties-set": set(props)}[mode]
+                    arg_before = sorted(arg)
                     rng = CountRng(seed)
                     twin = np.random.RandomState(seed)
                     gen = vg.VectorsWithProperties(d, arg, A, rng=rng) if mode != "create_vector" else None
@@ -459,6 +462,10 @@ def sec_properties(ctx, nd):
                         warned = any(issubclass(w.category, UserWarning) and "identity" in str(w.message) for w in wl)
                         ndraws = rng.calls - calls0
                         case = {"gen": mode, "alg": alg, "d": d, "properties": sorted(props), "seed": seed, "request": t}
+                        if sorted(arg) != arg_before:
+                            ctx.fail(case, f"the caller's properties collection became {sorted(arg)}", f"unchanged: {arg_before}",
+                                     where=f"properties-argument-mutated-{alg}")
+                            arg_before = sorted(arg)
                         key = f"props {mode} {alg} {d} {props} {t}"
                         ctx.count(key, nontrivial=d >= 2, branch=f"properties-{alg}-{impl}")
                         ctx.sample(dict(case, impl=impl, draws=ndraws, warned=warned), limit=14)
